@@ -371,4 +371,6 @@ def tail_start(body):
         last_ended_semicolon = ended_semi
     if last_stmt_start is None or last_ended_semicolon:
         return n - 1
+    if body[last_stmt_start].kind == "ident" and body[last_stmt_start].text in ("for", "while"):
+        return n - 1          # a trailing `for`/`while` loop is unit-valued: the body has no tail expression
     return last_stmt_start
